@@ -30,7 +30,7 @@ STUBS = ["file_parser.open -> in-memory text file; module loggers -> recorder",
          "Lexer.tokenize on directive lines -> fixed '#pragma' tokens while under CrossHair in lines/ (as in C05)"]
 ASSUMPTIONS = [
     "alphabet: printable ASCII without backslash (cpp would splice it, Fortran gives it no meaning), space, tab, newline",
-    "texts outside the property per ref_flex: unterminated character literal, '&' alone on a line, continuation pending at end of file "
+    "texts outside the property per ref_flex: a preprocessor line inside a continued character literal, unterminated character literal, '&' alone on a line, continuation pending at end of file "
     "or across a '#' line, quotes or slashes inside '#' lines (C comment rules there are C05's subject)",
     "a directive sentinel is '!' [letters] '$' as the first non-blank characters of a line",
     "line classification has no system oracle (gfortran -E does not report it); conditional selection is cross-checked with ref_cpp",
@@ -86,12 +86,28 @@ def _parse(text, name="/r/t.f90"):
     finally:
         pp.Lexer.tokenize = real_tokenize
     code, dirs = [], []
+    ORDER[:] = []
     for node in tree.walk():
         if isinstance(node, pp.DirectiveNode):
             dirs.append(tuple(node.lines))
+            ORDER.append(list(node.lines))
         elif isinstance(node, pp.CodeNode):
             code.append(list(node.lines))
+            ORDER.append(list(node.lines))
     return code, dirs, tree.root.total_sloc
+
+
+def _order_problem(order):
+    prev = 0
+    for ls in order:
+        if ls and min(ls) <= prev:
+            return "a node after line %d holds the earlier line %d" % (prev, min(ls))
+        if ls:
+            prev = max(ls)
+    return ""
+
+
+ORDER = []  # the line lists of the code and directive nodes of the last _parse, in tree order
 
 
 def h_text(seg: str) -> bool:
@@ -133,6 +149,10 @@ def h_text(seg: str) -> bool:
         why = "directive lines differ"
     elif sloc != len(ref.counted):
         why = "total_sloc differs"
+    else:
+        # a directive splits the statement lines around it: in tree order the nodes' lines never go backwards (a line
+        # before a directive that ended up in a node after it would be selected by the wrong branch)
+        why = _order_problem(ORDER)
     if P.get("_replay"):
         LAST.update(text=text, why=why, counted=sorted(s), expected_counted=sorted(ref.counted), directives=sorted(dirs),
                     expected_directives=sorted(ref.directives), total_sloc=sloc)
@@ -148,6 +168,10 @@ def _region(fid, text):
 
 def _fs_cond():
     lines = c01.render(P["sk"], P["r"])
+    if P.get("amp"):
+        # every statement line but the last is continued: directives then sit between the lines of one statement
+        code = [i for i, l in enumerate(lines) if not l.lstrip().startswith("#")]
+        lines = [l + " &" if i in code[:-1] else l for i, l in enumerate(lines)]
     files = {"/r/f.F90": lines}
     if P.get("inherit"):
         files = {"/r/f.F90": ['#include "inc.h"'] + lines, "/r/inc.h": ["! a Fortran comment in a header", "#ifdef A", "@", "#endif",
@@ -225,10 +249,13 @@ def replay(obd, cex):
             try:
                 tree = file_parser.FileParser(p).parse_file(summarize_only=True)
                 lines = []
+                order = []
                 for node in tree.walk():
                     if isinstance(node, pp.CodeNode):
                         lines.extend(node.lines)
-                bad = sorted(lines) != sorted(ref.counted) or tree.root.total_sloc != len(ref.counted)
+                        order.append(list(node.lines))
+                bad = sorted(lines) != sorted(ref.counted) or tree.root.total_sloc != len(ref.counted) or _order_problem(order) != ""
+                detail["disk_node_order"] = order
                 detail["disk_counted"] = sorted(lines)
             except Exception as e:
                 bad = True
@@ -257,6 +284,10 @@ def obligations(tier, known):
             if c01._has_clean_run(sk, r, na, nb):
                 obs.append(Ob(id="cond/%s/r%d" % (sk, r), kind="ch", module=__name__, func="h_cond",
                               params=dict(sk=sk, r=r, na=na, nb=nb), timeout=240, group="cond"))
+    for sk in [k for k in c01.skeletons(5 if tier == "quick" else 6) if k.count("C") >= 2]:
+        if c01._has_clean_run(sk, 0, na, nb):
+            obs.append(Ob(id="cond-continued/%s/r0" % sk, kind="ch", module=__name__, func="h_cond",
+                          params=dict(sk=sk, r=0, na=na, nb=nb, amp=True), timeout=240, group="cond"))
     obs.append(Ob(id="cond/inherit/ICLN", kind="ch", module=__name__, func="h_cond", params=dict(sk="ICLN", r=1, na=5, nb=3, inherit=True),
                   timeout=240, group="cond"))
     return obs
